@@ -370,6 +370,31 @@ if st == "ok":
             if got != refs[i]:
                 rep.fail("shared-predicate-call::two-roles", f"a predicate call shared by a condition and by a comparison, iterators stepped alternately: query {i} gives {got}, alone {refs[i]}",
                          {"schedule": "alternating", "query": i})
+# one comparison node in two positions of a query and in another query that is evaluated while the first is suspended
+def shared_comparison_queries():
+    items = [Item(2), Item(0), Item(3), Item(1)]
+    others = [Item(7), Item(8)]
+    x, y = let(Item, items), let(Item, others)
+    c = x.a > 1
+    from krrood.entity_query_language.entity import set_of as _set_of
+    return an(_set_of([x, y], _and(c, y.a > 0, c))), an(entity(x, c)), x, y
+
+
+st, ref = guarded(lambda: (lambda q1, q2, x, y: [(r[x].a, r[y].a) for r in q1.evaluate()])(*shared_comparison_queries()))
+if st == "ok":
+    q1, q2, x, y = shared_comparison_queries()
+    rows = []
+
+    def nested_run():
+        for r in q1.evaluate():
+            rows.append((r[x].a, r[y].a))
+            list(q2.evaluate())
+    st, e = guarded(nested_run)
+    rep.case(("shared-comparison", "nested"))
+    if st == "exc":
+        rep.fail("raised::shared-comparison", f"{type(e).__name__}: {e}", {"schedule": "nested"})
+    elif rows != ref:
+        rep.fail("shared-comparison::nested", f"a comparison used twice in q1 and once in q2, q2 evaluated completely after every result of q1: q1 gives {rows}, alone {ref}", {"schedule": "nested"})
 # a rule tree that grows between evaluations (the ripple-down workflow: evaluate, look, add an exception, evaluate again)
 for name in RULES:
     if name == "base":
